@@ -163,11 +163,34 @@ func (e *C05) point(ctx *core.Ctx, p int) {
 		s.Inject(kit.Node(fmt.Sprintf("n%d", i), nil))
 	}
 	ctl := kit.NewControllers(s, kit.CtlOpts{})
+	// one point in five of those that are not paused: the user pauses the canary between the reconcile's read and its
+	// status write. Whatever the reconcile does about the refused write, it must not publish a promotion that elapsed
+	// time alone justified over the object that now says "paused".
+	overtaken := pause == "none" && pointID%5 == 0
+	if overtaken {
+		done := false
+		ctl.CEDS.Hook = func(phase string, c *simapi.Call) {
+			if phase == "pre" && !done && c.Kind == simapi.KindEDS && c.Verb == "status-update" {
+				done = true
+				s.Mutate(simapi.KindEDS, "ns", "foo", func(o clientObject) {
+					a := o.GetAnnotations()
+					if a == nil {
+						a = map[string]string{}
+					}
+					a[v1.ExtendedDaemonSetCanaryPausedAnnotationKey] = "true"
+					o.SetAnnotations(a)
+				})
+			}
+		}
+		pause = "ann"
+		ctx.Count("C05.points-overtaken-by-a-pause")
+	}
 	out := ctl.Reconcile("eds", "ns", "foo", "fn")
+	ctl.CEDS.Hook = nil
 	ctx.Count("C05.points")
 	ctx.Count("evaluations")
-	desc := map[string]any{"strategy": strat, "age-duration": ageD.String(), "noRestartsDuration": nrd, "lastRestart": lastRestart, "pause": pause, "unpaused": unp, "valid": valid, "failed": failed, "activePresent": activePresent}
-	attrs := map[string]string{"strategy": strat, "failed": fmt.Sprint(failed), "paused": fmt.Sprint(pause == "ann" || pause == "cond" || pause == "ann-after-resume"), "valid": valid, "elapsed": fmt.Sprint(ageD > 0), "activePresent": fmt.Sprint(activePresent)}
+	desc := map[string]any{"strategy": strat, "age-duration": ageD.String(), "noRestartsDuration": nrd, "lastRestart": lastRestart, "pause": pause, "unpaused": unp, "valid": valid, "failed": failed, "activePresent": activePresent, "pausedBetweenReadAndWrite": overtaken}
+	attrs := map[string]string{"overtaken": fmt.Sprint(overtaken), "strategy": strat, "failed": fmt.Sprint(failed), "paused": fmt.Sprint(pause == "ann" || pause == "cond" || pause == "ann-after-resume"), "valid": valid, "elapsed": fmt.Sprint(ageD > 0), "activePresent": fmt.Sprint(activePresent)}
 	if out.Panic != "" {
 		attrs["panic"] = out.Panic
 		ctx.Violation("C05", "C05.no-panic", attrs, desc)
